@@ -11,9 +11,9 @@ PROP = 'C09'
 def run_shard(args):
     kind = args[0]
     if kind == 'corpus':
-        _, paths, d, start = args
         # layouts: the BOM and leading comment/blank lines matter to a lexer started at a non-zero offset
-        texts = [(t, 'corpus cost=%d%s' % (c, '' if ln == 'plain' else ' ' + ln)) for t, c, ln in R.corpus_texts(paths, d, start, ('plain', 'bom', 'comments-crlf-tab') if start == 'file' else ('plain', 'bom'))]
+        _, paths, d, start, layouts = args
+        texts = [(t, 'corpus cost=%d%s' % (c, '' if ln == 'plain' else ' ' + ln)) for t, c, ln in R.corpus_texts(paths, d, start, layouts)]
     elif kind == 'chars':
         _, n, shard = args
         texts = [(t, 'chars len=%d' % l) for t, l in X.shard_strings(R.CHAR_SIGMA, n, shard)]
@@ -40,7 +40,11 @@ def run(tier, seed):
     jobs = []
     for start in ('file', 'exprfile'):
         for g in K.group_shards(K.shards_for(d, start), 400 if tier == 'thorough' else 64):
-            jobs.append(('corpus', g, d, start))
+            jobs.append(('corpus', g, d, start, ('plain',)))
+        # the BOM and comment/CRLF/tab layouts one level lower in the thorough tier (the plain layout carries the full bound)
+        dl = d if tier == 'quick' else d - 1
+        for g in K.group_shards(K.shards_for(dl, start), 64):
+            jobs.append(('corpus', g, dl, start, ('bom', 'comments-crlf-tab') if start == 'file' else ('bom',)))
     n = 3 if tier == 'quick' else 4
     jobs += [('chars', n, s) for s in X.prefix_shards(R.CHAR_SIGMA, n, 1 if tier == 'quick' else 2)]
     jobs.append(('mode',))
@@ -51,7 +55,7 @@ def run(tier, seed):
         total.merge(r)
     total.states = len(allh)
     total.nontrivial = len(allh)
-    rule = ('every G_ref sentence with at most %d non-default alternatives (accepted by the parser or not; plain, BOM-prefixed and comment/CRLF/tab layouts) and every string of length<=%d over %r, through parse / parse_starts_at / '
+    rule = ('every G_ref sentence with at most %d non-default alternatives (accepted by the parser or not; plain layout at the full bound, BOM-prefixed and comment/CRLF/tab layouts at the quick bound) and every string of length<=%d over %r, through parse / parse_starts_at / '
             'parse_tokens / lex / lex_starts_at, Parse::{parse, parse_starts_at, parse_without_path} for Mod*, Suite, Stmt, Expr, Identifier, Constant and all 55 generated node types, '
             'the deprecated helpers, in three modes at offsets {0, 1, 7, 400, 2^31, 2^32-2-len}; Mode::from_str on all strings of <=6 letters; states = distinct texts, '
             'transitions = relations checked' % (d, n, ''.join(R.CHAR_SIGMA)))
